@@ -35,6 +35,7 @@ type Prog struct {
 	OpaqueDecl    map[string]string // define-fun text -> declare-fun text (opaque mode)
 	GhostDecls    map[string]*Sort
 	SpecFileOf    map[string]string
+	GhostMono     map[string]bool
 	globals       map[*ssa.Global]int64
 	globalList    []*ssa.Global
 	funcs         map[*ssa.Function]int64
@@ -69,7 +70,7 @@ func loadProg(repo, verif string, pkgPatterns []string) (*Prog, error) {
 	prog.Build()
 	p := &Prog{prog: prog, pkgs: pkgs, spkgs: map[string]*ssa.Package{}, Contracts: map[string]*Contract{},
 		Macros: map[string]*Macro{}, SpecFns: map[string]*SpecFn{}, Recs: map[string]bool{}, SortAlias: map[string]*Sort{},
-		Specs: map[string]*SpecFile{}, OpaqueDecl: map[string]string{}, GhostDecls: map[string]*Sort{}, SpecFileOf: map[string]string{}, globals: map[*ssa.Global]int64{}, funcs: map[*ssa.Function]int64{},
+		Specs: map[string]*SpecFile{}, OpaqueDecl: map[string]string{}, GhostDecls: map[string]*Sort{}, SpecFileOf: map[string]string{}, GhostMono: map[string]bool{}, globals: map[*ssa.Global]int64{}, funcs: map[*ssa.Function]int64{},
 		closureFn: map[int]*ssa.Function{}, constTables: map[*ssa.Global]map[int64]*Term{}, mutated: map[*ssa.Global]bool{},
 		strConsts: map[string]int64{}, srcCache: map[string][]byte{}, tagTypes: map[int64]types.Type{},
 		repo: repo, verif: verif, fnByName: map[string]*ssa.Function{}, extByName: map[string]*ssa.Function{}}
